@@ -20,9 +20,9 @@ var e8Variants = []string{"subwf", "subff", "clonewf+sub", "cloneff+sub"}
 func e8Objects() []metav1.Object {
 	return []metav1.Object{
 		kit.Pod("n0", "a", "1", map[string]string{"l": "x"}),
-		kit.Pod("n0", "b", "2", map[string]string{"l": "y", "m": "1"}),
+		kit.Pod("n0", "b", "4294967298", map[string]string{"l": "y", "m": "1"}), // beyond 32 bits
 		kit.Pod("n1", "a", "3", map[string]string{"m": "1"}),
-		kit.Pod("n1", "c", "4", map[string]string{"l": "x", "m": "2"}),
+		kit.Pod("n1", "c", "9007199254740995", map[string]string{"l": "x", "m": "2"}), // beyond 53 bits
 	}
 }
 
@@ -229,6 +229,99 @@ func e8Case(mask int, variant string, triples bool, perturbSeed uint64) Case {
 	}}
 }
 
+
+// e8FilteredParentCase: the parent of the refiltered node is itself a FILTERED
+// clone whose content has just changed because one of its objects stopped
+// matching the parent's own filter (after the parent had been read).  With no
+// parent events in flight, Refilter(f1 -> f2) on the node delivers exactly the
+// delta over the parent's true content.
+func e8FilteredParentCase(seed uint64, vanish int) Case {
+	id := fmt.Sprintf("E8/filtered-parent/%d/vanish%d", seed, vanish)
+	return Case{ID: id, Desc: map[string]interface{}{"vanishing_object": vanish, "what": "Refilter below a filtered clone right after that clone dropped an object its own filter no longer accepts"}, Bubble: true, Run: func(r *Res) {
+		fam := filterFamily()
+		objs := []metav1.Object{
+			kit.Pod("n0", "a", "1", map[string]string{"l": "x"}),
+			kit.Pod("n0", "b", "2", map[string]string{"l": "x", "m": "1"}),
+			kit.Pod("n1", "a", "3", map[string]string{"l": "x", "m": "1"}),
+			kit.Pod("n1", "c", "4", map[string]string{"l": "x", "m": "2"}),
+		}
+		FP := kit.TLabels(map[string]string{"l": "x"})
+		n := int64(0)
+		for i1, f1 := range fam {
+			for i2, f2 := range fam {
+				if (i1+i2+vanish)%2 == 1 {
+					continue
+				}
+				core := kit.NewCore(&kit.Plan{Seed: kit.Mix(seed, uint64(i1*100+i2)), PYield: 100})
+				g := newRootRig(core, nil)
+				if _, err := g.root.Cache().Sync(objs); err != nil {
+					r.Inc(err.Error())
+					return
+				}
+				g.root.MakeReady()
+				t := newTree(g.root.Publisher())
+				P, err := t.addChild(t.root, "clonewf", FP, false)
+				if err != nil {
+					r.V("C07", "tree-build-error", "%v", err)
+					return
+				}
+				nd, err := t.addChild(P, "subwf", f1, false)
+				if err != nil {
+					r.V("C07", "tree-build-error", "%v", err)
+					return
+				}
+				g.barrier()
+				label := fmt.Sprintf("subwf below clonewf(l=x), F%d->F%d, object #%d leaves the parent", i1, i2, vanish)
+				// the parent is read, then one object is relabelled out of the parent's filter
+				cacheSnap(P.cc.Cache())
+				v := objs[vanish]
+				if _, err := g.apply(kcacheUpdate, kit.Pod(v.GetNamespace(), v.GetName(), "50", map[string]string{"l": "y", "m": v.GetLabels()["m"]})); err != nil {
+					r.V("C07", "publish-error", "%v", err)
+					return
+				}
+				g.barrier()
+				drainNow(nd.events)
+				var pcontent []metav1.Object
+				for i, o := range objs {
+					if i != vanish {
+						pcontent = append(pcontent, o)
+					}
+				}
+				if got, _ := cacheSnap(nd.cc.Cache()); !got.Equal(f1.Accepted(pcontent)) {
+					r.V("C06", "filtered-cache-mismatch", "%s: before the Refilter the node holds %v, expected %v", label, got, f1.Accepted(pcontent))
+					return
+				}
+				if err := nd.refilt(f2); err != nil {
+					r.V("C07", "refilter-error", "%s: %v", label, err)
+					return
+				}
+				g.barrier()
+				evts := drainNow(nd.events)
+				want := e8Expect(pcontent, f1, f2)
+				var got []string
+				for _, e := range evts {
+					got = append(got, fmt.Sprintf("%s %s@%s", e.Type(), kit.Key(e.Resource()), e.Resource().GetResourceVersion()))
+				}
+				sort.Strings(got)
+				n++
+				r.Add("refilters-below-filtered-parent", 1)
+				if strings.Join(got, ";") != strings.Join(want, ";") {
+					r.V("C07", "refilter-delta-wrong", "%s: the parent (filter l=x) holds %v; Refilter %s -> %s delivered %v, expected exactly %v", label, kit.SnapOf(pcontent), f1, f2, got, want)
+					return
+				}
+				if after, _ := cacheSnap(nd.cc.Cache()); !after.Equal(f2.Accepted(pcontent)) {
+					r.V("C07", "refilter-cache-wrong", "%s: after the Refilter the node holds %v, expected %v", label, after, f2.Accepted(pcontent))
+					return
+				}
+				g.stop(r, "C12")
+			}
+		}
+		r.Evals = n
+		r.Count = n
+		r.Key(id)
+	}}
+}
+
 func init() {
 	register("E8", func(tier string, seed uint64) []Case {
 		var cases []Case
@@ -237,6 +330,11 @@ func init() {
 				for rep := 0; rep < tierPick(tier, 1, 16); rep++ {
 					cases = append(cases, e8Case(mask, v, tier == "thorough", seed+uint64(rep)*7919))
 				}
+			}
+		}
+		for v := 0; v < 4; v++ {
+			for rep := 0; rep < tierPick(tier, 1, 8); rep++ {
+				cases = append(cases, e8FilteredParentCase(seed+uint64(rep)*131, v))
 			}
 		}
 		return cases
